@@ -4,7 +4,7 @@ import Dagrt.Props.C06
 # C05 — lowering a phase to structured code keeps order, guards and loops
 
 Model: `Dagrt.Lower` (`Model/Lower.lean`) = `create_ast_from_phase` (iterative DFS over sorted
-ids, loops-outermost wrapping, no-ops dropped) composed with the C06 model of `simplify_ast`
+ids, guard-outermost wrapping around the loops, no-ops dropped) composed with the C06 model of `simplify_ast`
 and the walker `lower_node`.  `LWF p`: ids unique, dependencies resolve inside the phase, a
 rank function exists — what `C10.accept_iff_wellformed` gives for accepted methods.
 Semantics: `trace v it a` = the leaves executed under flag valuation `v` and trip counts `it`.
@@ -194,7 +194,7 @@ theorem storage_order_irrelevant {p p' : Phase} (hp : p.Perm p') (wf : LWF p) :
 /-! non-vacuity: ids whose sorted order is not topological, a guard, a loop, a no-op -/
 def exP : Phase := [⟨2, [], false, none, []⟩, ⟨0, [2, 1], false, some (.flag 0), [1]⟩, ⟨1, [2], true, none, []⟩]
 example : topoOrder exP = .ok [2, 1, 0] := by decide
-example : createAst exP = .ok (.block [.leaf 2, .loop 1 (.ifThen (.flag 0) (.leaf 0))]) := by rfl
+example : createAst exP = .ok (.block [.leaf 2, .ifThen (.flag 0) (.loop 1 (.leaf 0))]) := by rfl
 example : LWF exP := by
   refine ⟨by decide, ?_, ⟨fun i => 2 - i, ?_⟩⟩
   · intro s hs d hd
